@@ -4,7 +4,7 @@ from __future__ import annotations
 import numpy as np
 
 from vpkit import SubCheck, fail, ok
-from vpkit.training import gen_state_equal, make_program, program_cfgs, reference_loop, tree_close
+from vpkit.training import diverges, gen_state_equal, make_program, program_cfgs, reference_loop, tree_close
 
 PROPERTY = "C07"
 LEVEL = "exploration"
@@ -89,7 +89,7 @@ def run_case(case):
     if cfg.get("obs_gen"):
         labels.append("obs-gen")
     ref = reference_loop(prog, n)
-    if not np.all(np.isfinite(ref["loss"])):
+    if diverges(ref["loss"]):
         # the program diverges: solve() stops on NaN parameters (that behaviour is C18's), not a C07 case
         return ok(nontrivial=False, labels=labels + ["diverged-skipped"])
     kw = {}
@@ -124,7 +124,7 @@ def run_resume(case):
     prog = make_program(cfg)
     labels = [cfg["kind"], cfg["opt"], "resume"]
     ref = reference_loop(prog, n1 + n2)
-    if not np.all(np.isfinite(ref["loss"])):
+    if diverges(ref["loss"]):
         return ok(nontrivial=False, labels=labels + ["diverged-skipped"])
     o1 = jinns.solve(n_iter=n1, init_params=prog["params"], data=prog["data"], loss=prog["loss"], optimizer=prog["optimizer"],
                      verbose=False)
